@@ -90,6 +90,56 @@ def model_ok(spec):
     return True
 
 
+def in_closed_form(spec, t):
+    """is (class model, document type) inside the fragment of C05_simple_objects_roundtrip?  Classes: plain /
+    enum / string-like, no hooks, no registered bases or subclasses, not abstract; types: str int float bool
+    None Path, lists, string-keyed dicts, such classes, Any / untyped, Optional of a non-None type, Unions whose
+    members take different kinds of node."""
+    by = {c['name']: c for c in spec}
+    based = {b for c in spec for b in c.get('bases', [])}
+    for c in spec:
+        if c.get('recognize') or c.get('savorize') or c.get('sweeten') or c.get('abstract'):
+            return False
+        if c.get('bases') or c['name'] in based or not c.get('registered', True):
+            return False
+        if c['kind'] not in ('plain', 'enum', 'str', 'userstring', 'yatimlstring'):
+            return False
+
+    def kind(u):
+        k = u[0]
+        if k in ('str', 'path'):
+            return 'str'
+        if k in ('int', 'float', 'bool', 'null'):
+            return k
+        if k == 'seq':
+            return 'seq'
+        if k == 'map' or (k == 'cls' and by.get(u[1], {}).get('kind') == 'plain'):
+            return 'map'
+        return None
+
+    def ok(u):
+        if u is None or u[0] == 'any':
+            return True
+        k = u[0]
+        if k in ('str', 'int', 'float', 'bool', 'null', 'path'):
+            return True
+        if k == 'seq':
+            return ok(u[2])
+        if k == 'map':
+            return u[2] == ('str',) and ok(u[3])
+        if k == 'cls':
+            return u[1] in by
+        if k == 'union':
+            ms = u[1]
+            kinds = [kind(m) for m in ms]
+            if any(m[0] in ('union', 'any') for m in ms if m is not None):
+                return False
+            opt = len(ms) == 2 and ('null',) in ms and all(ok(m) for m in ms)
+            return opt or (None not in kinds and len(set(kinds)) == len(kinds) and all(ok(m) for m in ms))
+        return False
+    return ok(t) and all(ok(p.get('type')) for c in spec for p in c.get('params', []))
+
+
 def explore(ctx):
     yaml, yatiml = L.setup()
     rng = ctx.rng
@@ -169,6 +219,9 @@ def explore(ctx):
         except Exception as e:  # noqa
             back, ok, err = None, False, '{}: {}'.format(type(e).__name__, str(e)[:200].replace('\n', ' / '))
         ctx.count('roundtrips')
+        if not shared and in_closed_form(spec, t):
+            # inside the fragment for which the round trip is a theorem with no precondition
+            ctx.count('roundtrips_inside_closed_form')
         if shared:
             ctx.count('with_shared_subobject')
         if len(ctx.samples) < 3:
